@@ -3,7 +3,6 @@ CONSTANTS
   Impl = "intended"
   Walk = "arbitrary"
   Slices <- TinySlices
-  QuantsOf <- TierQuants
 SPECIFICATION Spec
 INVARIANTS TypeOK Faithful SelfConsistent
 PROPERTIES Determinism
